@@ -149,6 +149,21 @@ theorem args_nomem (m : Msg) (sep : Byte) :
 theorem args_spec_total (d : List Byte) (sep : Byte) : (Flat.args d sep).isSome = true :=
   args_total d sep
 
+/-- `mpt_dispatch_hash` (a caller that reads the type header, takes the command word with
+    `mpt_message_argv` and hashes it in place or through a copy — after fix 8c79496 without a length
+    limit on the copy path): the handler is reached with the same hash, or the message is refused,
+    exactly as for the contiguous message -/
+theorem dhash_flat (m : Msg) : m.dhash = .ok (Flat.dhash m.flat) :=
+  dhash_eq m
+example : (Msg.mk [4, 32] [[97], [], [98, 32, 99]]).dhash = .ok (some (Flat.hash [97, 98])) := by decide
+
+/-- `mpt_stream_append` (mptio consumer of fragment lists, after fix 7541cab) and the end of the
+    message: exactly one message arrives on the stream, the content, and its length is returned —
+    empty fragments in any position neither add a delimiter nor lose bytes -/
+theorem sappend_flat (m : Msg) : m.sappend = Flat.sappend m.flat := by
+  simp [Msg.sappend, Flat.sappend, sappendLoop_eq, Msg.flat]
+example : (Msg.mk [] [[1], [], [2, 3], []]).sappend = (3, [[1, 2, 3]]) := by decide
+
 /-- `mpt_message_get` on a queue (`len ≤ max`, `off ≤ max`): when the requested stretch lies inside the
     data, the message — one fragment, or two when the data wraps — denotes exactly those bytes of the
     queue's logical content -/
